@@ -43,7 +43,9 @@ def gen(ctx: common.Ctx, n_hist: int, steps: tuple[int, int], all_configs: bool,
     for k in range(n_hist):
         r = common.rng_for(*tag, "h", k)
         n = r.randint(*steps)
-        h = histgen.history((*tag, k), n_steps=n, n_modules=r.randint(3, 8))
+        # exploration avoids packages: deleting a submodule that its own package imports is a listed defect class of the
+        # unchanged tree (core histories cover it, per history+step)
+        h = histgen.history((*tag, k), n_steps=n, n_modules=r.randint(3, 8), packages=not explore)
         flags: list[str] = []
         if r.random() < 0.3:
             flags = r.choice([["--strict"], ["--warn-unreachable"], ["--disallow-any-generics"], ["--no-implicit-reexport"],
